@@ -241,7 +241,8 @@ def command_line_runs(ctx):
     d.mkdir(exist_ok=True)
     (d / "c10_core_test.py").write_text(
         "import os\nCOUNT = [0]\ndef interesting(args, prefix):\n    COUNT[0] += 1\n    data = open(args[-1], 'rb').read()\n"
-        "    return all(t in data for t in os.environ['C10_CORE'].encode('latin1').split(b'|') if t)\n")
+        "    ok = all(t in data for t in os.environ['C10_CORE'].encode('latin1').split(b'|') if t)\n"
+        "    return (1 if COUNT[0] % 2 else True) if ok else (None if COUNT[0] % 2 else 0)   # truthy / falsy, not strict bools\n")
     cwd = os.getcwd()
     os.chdir(d)
     try:
@@ -254,6 +255,9 @@ def command_line_runs(ctx):
                  ("--char", b"h\r\n// DDBEGIN\r\nabc37xyz\r\n// DDEND\r\nt\r\n", [b"37"], 9, b"h\r\n// DDBEGIN\r\n37\n// DDEND\r\nt\r\n"),
                  # every line boundary the loader knows (form feed, U+2028, NEL, FS) separates atoms
                  ("--lines", b"p1\x0cs1;\n/* page 2 */\x0cstmt2;\nx\xe2\x80\xa8y\nq\xc2\x85r\x1cz\n", [b"stmt2;\n", b"y\n", b"z\n"], 9, None)]
+        # symbol atoms with the user's own delimiters
+        toks = b"".join(b"tok%04d," % i for i in range(200))
+        cases.append(("--symbol --cut-before= --cut-after=,", toks, [b"tok0007,", b"tok0100,", b"tok0199,"], 200, None))
         for flag, data, core, *more in cases:
             tc = d / "tc.txt"
             tc.write_bytes(data)
@@ -264,7 +268,7 @@ def command_line_runs(ctx):
             case = dict(cli=True, argv=[flag], n_bytes=len(data), core=[c.decode("latin1") for c in core])
             try:
                 with contextlib.redirect_stdout(io.StringIO()), contextlib.redirect_stderr(io.StringIO()):
-                    lith.main([flag, "c10_core_test.py", str(tc)])
+                    lith.main(flag.split(" ") + ["c10_core_test.py", str(tc)])
             except (Exception, SystemExit) as exc:  # pylint: disable=broad-except
                 ctx.fail("cli-raises", f"main([{flag}, ...]) raised {type(exc).__name__}: {exc}", case)
                 continue
